@@ -128,7 +128,7 @@ CLAIMED = {
                   "replayed on a real GemEquipmentHandler; every step validated by TLC (GemDataJudge)",
         text="Replies of S1F3/S1F11/S2F13/S2F29/S5F5/S5F7, all-or-nothing and bounds of S2F15, S5F3 and S5F1 reporting are a TLA+ "
              "monitor (1920 states, 232k transitions; ConstantsWithinBounds, AllOrNothing, AlarmReportIffEnabledChange checked by "
-             "TLC). Random walks of 40 requests over the 121-request alphabet (thorough: walks covering the complete relation) run "
+             "TLC). Random walks of 40 requests over the 121-request alphabet (thorough: 3000 walks of 60 requests) run "
              "on a real equipment handler with numeric and text ids; decoded replies, S5F1 reports and the constant/alarm tables "
              "after every step are validated by TLC. The predefined Clock variable is read at frozen equipment-clock instants "
              "(sub-second parts around every digit boundary) in TimeFormat 0/1/2 set through S2F15; ClockJudge (TLC) decides each reply.",
